@@ -396,6 +396,18 @@ class Function:
         self._expr_cache[key] = r
         return r
 
+    def xexpr(self, o):
+        """like expr, with single-assignment locals that hold a call result replaced by the call"""
+        saved = self._expr_cache
+        self._expr_cache = getattr(self, '_xexpr_cache', {})
+        self._expand = True
+        try:
+            return self.expr(o)
+        finally:
+            self._expand = False
+            self._xexpr_cache = self._expr_cache
+            self._expr_cache = saved
+
     def _expr_inst(self, i, depth):
         op = i.op
         E = lambda x: self.expr(x, depth + 1)
@@ -404,6 +416,16 @@ class Function:
         if op in CASTS:
             return E(i.ops[0])
         if op == 'load':
+            if getattr(self, '_expand', False):
+                # expansion mode (xexpr): a local assigned exactly once from a call prints as that call, so that
+                # `t = getter(x); if (t == K)` and `if (getter(x) == K)` give the same atom whatever the name of t
+                al = self.strip(i.ops[0])
+                if al[0] == 'i' and self.insts[al[1]].op == 'alloca':
+                    sts = [u for u in self.users.get(al[1], ()) if u.op == 'store' and self.strip(u.ops[1]) == al]
+                    if len(sts) == 1:
+                        v = self.inst_of(sts[0].ops[0])
+                        if v is not None and ((v.op == 'call' and v.callee and not v.callee.startswith('llvm.') and not (v.ty or '').endswith('*')) or v.op in ('load', 'getelementptr')):
+                            return E(sts[0].ops[0])
             a = E(i.ops[0])
             return a[1:] if a.startswith('&') else '*' + a
         if op == 'getelementptr':
